@@ -53,6 +53,16 @@ fn eval_flat(text: &str, vals: &[Term], compile: bool) -> Result<(Vec<String>, T
     let v = ex_msg(e.eval(vals))?;
     Ok((e.var_names().to_vec(), v))
 }
+/// the owning evaluation variants of the same parsed expression (they share the reduction with `eval`
+/// but have their own value bookkeeping)
+fn eval_flat_owning(text: &str, vals: &[Term], compile: bool) -> Result<Vec<(&'static str, Term)>, String> {
+    let e = if compile { ex_msg(F::parse(text))? } else { ex_msg(F::parse_wo_compile(text))? };
+    Ok(vec![
+        ("eval_vec", ex_msg(e.eval_vec(vals.to_vec()))?),
+        ("eval_iter", ex_msg(e.eval_iter(vals.to_vec().into_iter()))?),
+        ("eval_relaxed", ex_msg(e.eval_relaxed(vals))?),
+    ])
+}
 
 pub fn check_flat(case: &TermCase, label: &str, compile: bool) -> CaseResult {
     let sig = |k: &str| format!("C01/{label}/{k}");
@@ -78,7 +88,22 @@ pub fn check_flat(case: &TermCase, label: &str, compile: bool) -> CaseResult {
                     format!("`{}` evaluates to {:?}, documented semantics give {:?}", case.text, vn, case.refv),
                 ));
             }
-            Ok(())
+            match guard(|| eval_flat_owning(&case.text, &case.vals, compile)) {
+                Err(p) => Err(mk("panic", format!("panic on well-formed text `{}` in an owning evaluation: {p}", case.text))),
+                Ok(Err(e)) => Err(mk("rejected", format!("well-formed text `{}`: owning evaluation fails: {e}", case.text))),
+                Ok(Ok(vs)) => {
+                    for (what, v) in vs {
+                        let vn = case.norm(&v);
+                        if vn != case.refv {
+                            return Err(mk(
+                                "wrong-value",
+                                format!("`{}` evaluates via {what} to {:?}, documented semantics give {:?}", case.text, vn, case.refv),
+                            ));
+                        }
+                    }
+                    Ok(())
+                }
+            }
         }
     }
 }
